@@ -507,6 +507,14 @@ func (s *serverConnection) connect(ctx context.Context) (result *connectionResul
 	s.connPhase = serverMc.Type().InitialBackendPhase()
 	s.mu.Unlock()
 
+	// The login handler watches ctx from the moment it was activated above. If ctx ended
+	// before the connection was recorded, the watcher's disconnect() found nothing to
+	// close; close it now instead of leaving the backend connection open for good.
+	if err = ctx.Err(); err != nil {
+		s.disconnect()
+		return nil, fmt.Errorf("error connecting to backend server %q: %w", s.server.ServerInfo().Name(), err)
+	}
+
 	debug.Info("establishing player connection with server...")
 	return s.startHandshake(readLoop, resultChan)
 }
